@@ -542,6 +542,7 @@ func parseColor(token css_ast.Token) (parsedColor, bool) {
 		case "hsl", "hsla":
 			args := *token.Children
 			var h, s, l, a css_ast.Token
+			isLegacySyntax := false
 
 			switch len(args) {
 			case 3:
@@ -552,6 +553,7 @@ func parseColor(token css_ast.Token) (parsedColor, bool) {
 				// "hsla(1, 2, 3)"
 				if args[1].Kind == css_lexer.TComma && args[3].Kind == css_lexer.TComma {
 					h, s, l = args[0], args[2], args[4]
+					isLegacySyntax = true
 					break
 				}
 
@@ -564,12 +566,13 @@ func parseColor(token css_ast.Token) (parsedColor, bool) {
 				// "hsl(1%, 2%, 3%, 4%)"
 				if args[1].Kind == css_lexer.TComma && args[3].Kind == css_lexer.TComma && args[5].Kind == css_lexer.TComma {
 					h, s, l, a = args[0], args[2], args[4], args[6]
+					isLegacySyntax = true
 				}
 			}
 
 			// HSL => RGB
 			if h, ok := degreesForAngle(h); ok {
-				if s, ok := fractionForSaturation(s); ok {
+				if s, ok := fractionForSaturation(s, isLegacySyntax); ok {
 					if l, ok := l.ClampedFractionForPercentage(); ok {
 						if a, ok := parseAlphaByte(a); ok {
 							r, g, b := hslToRgb(helpers.NewF64(h), helpers.NewF64(s), helpers.NewF64(l))
@@ -796,12 +799,16 @@ func hueToRgb(t1 F64, t2 F64, hue F64) F64 {
 
 // Saturation is only clamped to be non-negative. A saturation above 100% is
 // used as-is and only the resulting color is clamped to the sRGB gamut:
-// https://drafts.csswg.org/css-color-4/#the-hsl-notation
-func fractionForSaturation(token css_ast.Token) (float64, bool) {
+// https://drafts.csswg.org/css-color-4/#the-hsl-notation. Browsers still
+// clamp the saturation to 100% for the legacy comma-separated syntax.
+func fractionForSaturation(token css_ast.Token, isLegacySyntax bool) (float64, bool) {
 	if token.Kind == css_lexer.TPercentage {
 		if f, err := strconv.ParseFloat(token.PercentageValue(), 64); err == nil {
 			if f < 0 {
 				return 0, true
+			}
+			if isLegacySyntax && f > 100 {
+				return 1, true
 			}
 			return f / 100, true
 		}
